@@ -7,7 +7,7 @@
     with the implementation on every run of the C01/C07 checks.  How the unlimited IR run relates
     to the canonical run is C01 (theorem for level 0, validation per program above). *)
 From Coq Require Import ZArith List Bool Lia.
-From HPBF Require Import Cell IO BF Expr IR Level0Proofs LimitedProofs.
+From HPBF Require Import Cell IO BF Expr IR BC Level0Proofs LimitedProofs BCProofs.
 Import ListNotations.
 Open Scope Z_scope.
 
@@ -69,6 +69,26 @@ Proof.
     destruct (ir_exec w e false f p s); try contradiction.
 Qed.
 
+(** ** bytecode interpreter ([BC.bc_run] with [limited = true]: [limit 1] before every branch,
+    [limit usize::MAX] before an entered stationary scan, early exit on budget 0) *)
+Theorem C07_bc_limited_is_prefix : forall w e p budget f,
+  match bc_run w e true budget f p with
+  | Done s' => bc_run w e false budget f p = Done (bc_set_budget s' budget)
+  | Stopped s' => bc_run w e false budget f p = Stopped (bc_set_budget s' budget)
+  | Interrupted s' =>
+      exists later, events bc_io (bc_run w e false budget f p) = events bc_io (Interrupted s') ++ later
+  | _ => True
+  end.
+Proof.
+  intros w e p budget f. unfold bc_run. cbn [andb].
+  destruct (budget =? 0) eqn:B0.
+  - exists (events bc_io (bc_exec w e false (fetch_of p) (Z.of_nat (length (bp_code p))) f (bc0 budget))). reflexivity.
+  - pose proof (bc_limited_prefix w e (fetch_of p) (Z.of_nat (length (bp_code p))) f (bc0 budget) budget) as H.
+    change (sb (bc0 budget) budget) with (bc0 budget) in H.
+    destruct (bc_exec w e true (fetch_of p) (Z.of_nat (length (bp_code p))) f (bc0 budget)) as [a|a|a|q a|a]; cbn [LPb] in H; try exact I; try exact H.
+    destruct H as [_ [l X]]. exists (rev l). unfold events. cbn [outcome_state]. rewrite X, rev_app_distr. reflexivity.
+Qed.
+
 (** non-vacuity:  +[>+.<]  style loop ( cell0 := 3; while cell0 { cell1 += 1; out cell1; cell0 -= 1 } )
     interrupted by budget 1, finished by budget 5 *)
 Definition demo : list instr :=
@@ -87,3 +107,4 @@ Print Assumptions C07_ir_finished_is_complete.
 Print Assumptions C07_ir_interrupted_is_prefix.
 Print Assumptions C07_ir_returns.
 Print Assumptions C07_ir_large_budget.
+Print Assumptions C07_bc_limited_is_prefix.
